@@ -1036,15 +1036,23 @@ class _Tree(_ArithmeticMixin, _Base):
             min = self._to_key(min)
             bucket = self._findbucket(min)
         if bucket is not None:
-            try:
-                return bucket.minKey(min)
-            except ValueError:
-                # ``min`` lies in the gap behind the last key of the bucket
-                # the search led to: the answer is the first key of the
-                # next bucket, if there is one.
-                if min is _marker or min is None or bucket._next is None:
-                    raise
-                return bucket._next.minKey()
+            if min is _marker or min is None:
+                return bucket.minKey()
+            # (Not ``try: bucket.minKey(min) except ValueError``: a key
+            # comparison may raise a ValueError of its own, which has to
+            # reach the caller.)
+            index = bucket._search(min)
+            if index >= 0:
+                return min
+            index = -index - 1
+            if index < len(bucket._keys):
+                return bucket._keys[index]
+            # ``min`` lies in the gap behind the last key of the bucket
+            # the search led to: the answer is the first key of the
+            # next bucket, if there is one.
+            if bucket._next is None:
+                raise ValueError("no key satisfies the conditions")
+            return bucket._next.minKey()
         raise ValueError('empty tree')
 
     def maxKey(self, max=_marker):
